@@ -4,7 +4,7 @@ package main
 
 import (
 	"fmt"
-	"go/token"
+	"go/constant"
 	"os"
 	"path/filepath"
 	"regexp"
@@ -22,33 +22,6 @@ func (m *Model) RunResponse(s *Sink, rule string) {
 	}
 	rk := fnKey(resp)
 	w := resp.Params[1]
-	// the render whose result is written
-	var render *ssa.Call
-	for _, b := range resp.Blocks {
-		for _, in := range b.Instrs {
-			if c, ok := in.(*ssa.Call); ok && c.Call.StaticCallee() == strFn && render == nil {
-				render = c
-			}
-		}
-	}
-	if render == nil {
-		s.Undecided(rule, rk+"|renders through String", m.Pos(resp.Pos()), "Response does not call (*Template).String")
-		return
-	}
-	var evaluated, failErr ssa.Value
-	for _, r := range *render.Referrers() {
-		if ex, ok := r.(*ssa.Extract); ok {
-			if ex.Index == 0 {
-				evaluated = ex
-			} else if ex.Index == 1 {
-				failErr = ex
-			}
-		}
-	}
-	if failErr == nil {
-		s.Violation(rule, rk+"|render error is examined", m.InstrPos(render), "Response ignores the error result of String")
-		return
-	}
 	// (1) uses of w: only as the writer of Fprint-family calls, or handed to helpers that obey the same rule
 	type wsite struct {
 		fn   *ssa.Function
@@ -132,165 +105,235 @@ func (m *Model) RunResponse(s *Sink, rule string) {
 	} else {
 		s.OK(rule, rk+"|writer only receives finished output", m.Pos(resp.Pos()), "the ResponseWriter flows only to %d Fprint-style calls (in Response and its helpers); it never reaches String/Eval", len(writes))
 	}
-	// (2) each write in Response is dominated by the nil-error edge of the render it writes; at most one write per path
-	a := m.NewArith(resp)
-	isNilFact := func(b *ssa.BasicBlock, v ssa.Value, wantNil bool) bool {
-		for _, f := range expandFacts(factsAt(b)) {
-			bo, ok := f.Cond.(*ssa.BinOp)
-			if !ok || (bo.Op != token.EQL && bo.Op != token.NEQ) {
-				continue
-			}
-			var other ssa.Value
-			if a.canonKey(bo.X) == a.canonKey(v) {
-				other = bo.Y
-			} else if a.canonKey(bo.Y) == a.canonKey(v) {
-				other = bo.X
-			} else {
-				continue
-			}
-			if k, ok := other.(*ssa.Const); ok && k.IsNil() {
-				isNil := (bo.Op == token.EQL) == f.Holds
-				if isNil == wantNil {
-					return true
-				}
-			}
-		}
-		return false
-	}
-	for _, ws := range writes {
-		if ws.fn != resp {
-			continue
-		}
-		key := fmt.Sprintf("%s|write of %s only after its render succeeded", rk, valueDesc(ws.what))
-		ok := false
-		why := ""
-		switch {
-		case ws.what != nil && ws.what == evaluated:
-			ok = isNilFact(ws.call.Block(), failErr, true)
-			why = "the page output is written on a path where the render error is not known to be nil: part of a failed page could reach the body"
-		case ws.what != nil:
-			// output of another producer: (out, err) := f(...); must be under err == nil
-			if ex, isEx := ws.what.(*ssa.Extract); isEx {
-				for _, r := range *ex.Tuple.Referrers() {
-					if e2, ok2 := r.(*ssa.Extract); ok2 && e2.Index == 1 {
-						ok = isNilFact(ws.call.Block(), e2, true)
-					}
-				}
-				why = "the error page is written although producing it may have failed"
-			}
-		}
-		if ok {
-			s.OK(rule, key, m.InstrPos(ws.call), "dominated by the nil edge of the error returned together with the written value")
-		} else {
-			if why == "" {
-				why = "the written value is not the result of a render guarded by its error"
-			}
-			s.Violation(rule, key, m.InstrPos(ws.call), "%s", why)
-		}
-	}
-	// at most one write per path (direct writes and helper calls that write)
-	ctx := m.Ctx(resp)
-	var wpoints []ssa.Instruction
-	for _, ws := range writes {
-		if ws.fn == resp {
-			wpoints = append(wpoints, ws.call)
-		}
-	}
-	for _, hc := range helperCalls {
-		wpoints = append(wpoints, hc)
-	}
-	multi := false
-	for _, x := range wpoints {
-		for _, y := range wpoints {
-			if x != y && ctx.instrReaches(x, y) {
-				multi = true
-			}
-		}
-	}
-	if multi {
-		s.Violation(rule, rk+"|at most one body per response", m.Pos(resp.Pos()), "one write to the response can be followed by another on the same path: the body would contain the page (or an error page) and a second page")
-	} else {
-		s.OK(rule, rk+"|at most one body per response", m.Pos(resp.Pos()), "%d write points, none reaches another", len(wpoints))
-	}
-	// (3) return values
+	// (2)-(4) what is written and returned, decided by evaluating Response — together with whatever helpers its body is
+	// split into — on every combination of the outcomes that matter: {render ok / failed} x {ErrorPagePath set / empty} x
+	// {DebugMode on / off} x {custom page renders / fails} x {built-in page renders / fails}. The renders themselves are
+	// abstract: String(FILE, data) yields the token "page", String(ErrorPagePath, _) "custom", errorPage(_) "builtin".
 	failErrorM := m.Method("fail", "Error", "Error")
 	nonNilCtor := failErrorM != nil && returnsFreshError(failErrorM)
-	for _, b := range resp.Blocks {
-		r, ok := b.Instrs[len(b.Instrs)-1].(*ssa.Return)
-		if !ok || len(r.Results) != 1 {
-			continue
-		}
-		v := r.Results[0]
-		success := isNilFact(b, failErr, true)
-		key := fmt.Sprintf("%s|return %s", rk, valueDesc(v))
-		if success {
-			if k, ok := v.(*ssa.Const); ok && k.IsNil() {
-				s.OK(rule, key+" on success", m.InstrPos(r), "nil is returned exactly on the path where rendering succeeded")
-			} else {
-				s.Violation(rule, key+" on success", m.InstrPos(r), "Response returns a possibly non-nil error although rendering succeeded")
+	ep := m.PkgFunc("textwire", "errorPage")
+	type outcome struct {
+		writes []string
+		ret    string // nil | non-nil | unknown
+		data   string // the data handed to the custom page render: nil | other | -
+		stuck  string
+	}
+	run := func(ok bool, path string, debug, customOK, builtinOK bool) outcome {
+		var out outcome
+		out.data = "-"
+		wTok, tTok := iObj{"w"}, iObj{"t"}
+		ip := &Interp{m: m}
+		ip.load = func(v *ssa.UnOp, dirty bool) (any, bool) {
+			fp := fieldPathOf(v)
+			switch {
+			case strings.HasSuffix(fp, ".ErrorPagePath"):
+				return constant.MakeString(path), true
+			case strings.HasSuffix(fp, ".DebugMode"):
+				return constant.MakeBool(debug), true
 			}
-			continue
+			return nil, false
 		}
-		nonNil := false
-		if k, ok := v.(*ssa.Const); ok && k.IsNil() {
-			nonNil = false
-		} else if isNilFact(b, v, false) {
-			nonNil = true
-		} else if c, ok := v.(*ssa.Call); ok && c.Call.StaticCallee() == failErrorM && nonNilCtor {
-			nonNil = true
+		errOr := func(good bool, name string) any {
+			if good {
+				return iNil{}
+			}
+			return iObj{name}
 		}
-		if nonNil {
-			s.OK(rule, key+" on failure", m.InstrPos(r), "non-nil by construction (tested non-nil, or built by errors.New)")
-		} else {
-			s.Violation(rule, key+" on failure", m.InstrPos(r), "on a path where rendering failed Response returns %s, which is not known to be non-nil: the caller would take the failed response for a success", valueDesc(v))
+		ip.call = func(c *ssa.Call, args []any) (any, bool) {
+			if c.Call.IsInvoke() {
+				if len(args) > 0 && args[0] == any(wTok) {
+					switch c.Call.Method.Name() {
+					case "Write":
+						out.writes = append(out.writes, "?")
+						return nil, true
+					case "WriteHeader", "Header":
+						return nil, true
+					}
+				}
+				return nil, false
+			}
+			sc := c.Call.StaticCallee()
+			if sc == nil {
+				return nil, false
+			}
+			switch {
+			case sc == strFn && len(args) == 3:
+				if k, isK := args[1].(constant.Value); isK && k.Kind() == constant.String {
+					switch constant.StringVal(k) {
+					case "FILE":
+						return iTuple{iObj{"page"}, errOr(ok, "renderErr")}, true
+					case path:
+						switch args[2].(type) {
+						case iNil:
+							out.data = "nil"
+						default:
+							out.data = "other"
+						}
+						return iTuple{iObj{"custom"}, errOr(customOK, "customErr")}, true
+					}
+				}
+				return nil, true
+			case ep != nil && sc == ep:
+				return iTuple{iObj{"builtin"}, errOr(builtinOK, "builtinErr")}, true
+			case sc == failErrorM:
+				if nonNilCtor && len(args) == 1 {
+					if _, isObj := args[0].(iObj); isObj {
+						return iObj{"error value"}, true
+					}
+				}
+				return nil, true
+			}
+			name := fnFullName(sc)
+			switch name {
+			case "fmt.Fprint", "fmt.Fprintf", "fmt.Fprintln", "io.WriteString":
+				if len(args) < 2 || args[0] != any(wTok) {
+					return nil, true
+				}
+				what := "?"
+				switch x := args[len(args)-1].(type) {
+				case iSlice:
+					if x.high-x.lo == 1 && name != "fmt.Fprintf" {
+						if o, isO := x.arr.elems[x.lo].(iObj); isO {
+							what = o.kind
+						}
+					}
+				case iObj:
+					what = x.kind
+				}
+				out.writes = append(out.writes, what)
+				return nil, true
+			}
+			return nil, false
+		}
+		args := make([]any, len(resp.Params))
+		args[0], args[1] = tTok, wTok
+		if len(args) > 2 {
+			args[2] = constant.MakeString("FILE")
+		}
+		if len(args) > 3 {
+			args[3] = iObj{"data"}
+		}
+		res, known := ip.Run(resp, args)
+		out.stuck = ip.stuck
+		for _, l := range ip.lost {
+			out.stuck = "helper " + fnKey(l) + " could not be evaluated"
+		}
+		switch r := res.(type) {
+		case iNil:
+			out.ret = "nil"
+		case iObj:
+			out.ret = "non-nil"
+		default:
+			_ = r
+			out.ret = "unknown"
+		}
+		if !known && out.ret != "unknown" {
+			out.ret = "unknown"
+		}
+		return out
+	}
+	type verdict struct {
+		ok     bool
+		detail string
+	}
+	verdicts := map[string]*verdict{}
+	keys := []string{
+		"on success the page is the whole body and nil is returned",
+		"on failure a non-nil error is returned",
+		"on failure no part of the failed page is written",
+		"custom error page exactly when configured and debug mode is off",
+		"built-in error page otherwise",
+		"a failing error page leaves the body empty",
+		"custom page rendered with nil data",
+		"at most one body per response",
+	}
+	for _, k := range keys {
+		verdicts[k] = &verdict{ok: true}
+	}
+	fail := func(k, format string, args ...any) {
+		v := verdicts[k]
+		if v.ok {
+			v.ok = false
+			v.detail = fmt.Sprintf(format, args...)
 		}
 	}
-	// (4) custom error page chosen exactly under ErrorPagePath != "" && !DebugMode, rendered with nil data
-	helper := m.Method("textwire", "Template", "responseErrorPage")
-	if len(helperCalls) == 0 || helper == nil {
-		s.Note(rule, rk+"|custom error page", m.Pos(resp.Pos()), "no helper writing a custom error page found")
+	undecided := ""
+	nCases := 0
+	bools := []bool{true, false}
+	for _, ok := range bools {
+		for _, path := range []string{"", "EP"} {
+			for _, debug := range bools {
+				for _, customOK := range bools {
+					for _, builtinOK := range bools {
+						o := run(ok, path, debug, customOK, builtinOK)
+						nCases++
+						desc := fmt.Sprintf("render ok=%v, ErrorPagePath=%q, DebugMode=%v, custom page ok=%v, built-in page ok=%v", ok, path, debug, customOK, builtinOK)
+						if o.stuck != "" {
+							undecided = desc + ": " + o.stuck
+							continue
+						}
+						got := strings.Join(o.writes, ",")
+						if len(o.writes) > 1 {
+							fail("at most one body per response", "with %s the body receives %s", desc, got)
+						}
+						if ok {
+							if got != "page" || o.ret != "nil" {
+								fail("on success the page is the whole body and nil is returned", "with %s the body receives [%s] and the result is %s", desc, got, o.ret)
+							}
+							continue
+						}
+						if o.ret != "non-nil" {
+							fail("on failure a non-nil error is returned", "with %s the result is %s: the caller would take the failed response for a success", desc, o.ret)
+						}
+						for _, w := range o.writes {
+							if w == "page" || w == "?" {
+								fail("on failure no part of the failed page is written", "with %s the body receives [%s]", desc, got)
+							}
+						}
+						custom := path != "" && !debug
+						want := ""
+						switch {
+						case custom && customOK:
+							want = "custom"
+						case !custom && builtinOK:
+							want = "builtin"
+						}
+						if got != want {
+							switch {
+							case want == "":
+								fail("a failing error page leaves the body empty", "with %s the body receives [%s], expected nothing", desc, got)
+							case custom:
+								fail("custom error page exactly when configured and debug mode is off", "with %s the body receives [%s], expected the custom page", desc, got)
+							default:
+								fail("built-in error page otherwise", "with %s the body receives [%s], expected the built-in page", desc, got)
+							}
+						}
+						if custom && o.data != "nil" {
+							fail("custom page rendered with nil data", "with %s the custom page is rendered with data %s: details of the failure could leak with debug mode off", desc, o.data)
+						}
+					}
+				}
+			}
+		}
+	}
+	if undecided != "" {
+		s.Undecided(rule, rk+"|case evaluation", m.Pos(resp.Pos()), "Response could not be evaluated for the case %s", undecided)
 	} else {
-		for _, hc := range helperCalls {
-			facts := expandFacts(factsAt(hc.Block()))
-			hasPath, debugOff := false, false
-			for _, f := range facts {
-				switch c := f.Cond.(type) {
-				case *ssa.BinOp:
-					if strings.HasSuffix(fieldPathOf(c.X), ".ErrorPagePath") && isEmptyStringConst(c.Y) && (c.Op == token.NEQ) == f.Holds {
-						hasPath = true
-					}
-				case *ssa.UnOp:
-					if strings.HasSuffix(fieldPathOf(c), ".DebugMode") && !f.Holds {
-						debugOff = true
-					}
-				}
-			}
-			key := rk + "|custom error page only when configured and debug mode is off"
-			if hasPath && debugOff {
-				s.OK(rule, key, m.InstrPos(hc), "dominated by ErrorPagePath != \"\" and !DebugMode")
+		for _, k := range keys {
+			v := verdicts[k]
+			if v.ok {
+				s.OK(rule, rk+"|"+k, m.Pos(resp.Pos()), "case evaluation over %d outcome combinations", nCases)
 			} else {
-				s.Violation(rule, key, m.InstrPos(hc), "the custom error page is written without both conditions (a configured ErrorPagePath and DebugMode off) holding on the path")
+				s.Violation(rule, rk+"|"+k, m.Pos(resp.Pos()), "%s", v.detail)
 			}
 		}
-		// nil data
-		okNil := false
-		for _, b := range helper.Blocks {
-			for _, in := range b.Instrs {
-				if c, ok := in.(*ssa.Call); ok && c.Call.StaticCallee() == strFn {
-					if k, ok := c.Call.Args[len(c.Call.Args)-1].(*ssa.Const); ok && k.IsNil() {
-						okNil = true
-					}
-				}
-			}
-		}
-		if okNil {
-			s.OK(rule, fnKey(helper)+"|custom page rendered with nil data", m.Pos(helper.Pos()), "nothing of the failure is passed to the custom page")
-		} else {
-			s.Violation(rule, fnKey(helper)+"|custom page rendered with nil data", m.Pos(helper.Pos()), "the custom error page receives data: details of the failure could leak with debug mode off")
-		}
+	}
+	if !nonNilCtor {
+		s.Violation(rule, "fail.(*Error).Error|never nil", "-", "(*fail.Error).Error does not build its result with errors.New / fmt.Errorf on every path: a failed response could return a nil error")
+	} else {
+		s.OK(rule, "fail.(*Error).Error|never nil", m.Pos(failErrorM.Pos()), "every return is errors.New / fmt.Errorf")
 	}
 	// (5) built-in page: debugMode comes from the configuration; secrets only inside @if(debugMode)
-	ep := m.PkgFunc("textwire", "errorPage")
 	if ep == nil {
 		s.Undecided(rule, "textwire.errorPage", "-", "errorPage not found")
 		return
